@@ -109,7 +109,9 @@ class Path:
         self.log = []
         self.cons = []  # forms known >= 0
         self.subst = {}  # Sym -> Aff
-        self.memo = _Memo()
+        self.memo = {}
+        self.monos = {}  # monomial symbol -> (factor symbol, factor symbol)
+        self.entries = []  # semantic memo: (tag, [argument forms], extra, result)
         self.events = []  # free-form records made by the interpreter (mutations, raises, ...)
         self.closed = False  # set when the task has returned: later queries must not fork
 
@@ -127,36 +129,6 @@ class Path:
         return v
 
 
-class _Keys:
-    """A memo entry is registered under the key of the form as written (stable between two
-    evaluations of the same expression) and under its normal form at creation time."""
-
-    def __init__(self, *keys):
-        self.keys = keys
-
-
-class _Memo(dict):
-    def __contains__(self, k):
-        if isinstance(k, _Keys):
-            return any(dict.__contains__(self, x) for x in k.keys)
-        return dict.__contains__(self, k)
-
-    def __getitem__(self, k):
-        if isinstance(k, _Keys):
-            for x in k.keys:
-                if dict.__contains__(self, x):
-                    return dict.__getitem__(self, x)
-            raise KeyError(k)
-        return dict.__getitem__(self, k)
-
-    def __setitem__(self, k, v):
-        if isinstance(k, _Keys):
-            for x in k.keys:
-                dict.__setitem__(self, x, v)
-        else:
-            dict.__setitem__(self, k, v)
-
-
 P = None  # current path (set by explore)
 MAX_FM = 3000
 
@@ -165,18 +137,50 @@ def cur():
     return P
 
 
+def _needs_rewrite(s, depth=0):
+    if s in P.subst:
+        return True
+    if s in P.monos and depth < 8:
+        return any(_needs_rewrite(f, depth + 1) for f in P.monos[s])
+    return False
+
+
 def norm(a):
+    """Polynomial normal form: substitutions applied, also inside monomials."""
     a = Aff.of(a)
-    guard = 0
-    while any(s in P.subst for s in a.t):
+    for _ in range(200):
+        changed = False
         out = Aff(a.c)
         for s, v in a.t.items():
-            out = out + (P.subst[s].scale(v) if s in P.subst else Aff(0, {s: v}))
+            if s in P.subst:
+                out = out + P.subst[s].scale(v)
+                changed = True
+            elif s in P.monos and _needs_rewrite(s):
+                f1, f2 = P.monos[s]
+                out = out + _mul_forms(norm(Aff.sym(f1)), norm(Aff.sym(f2))).scale(v)
+                changed = True
+            else:
+                out = out + Aff(0, {s: v})
         a = out
-        guard += 1
-        if guard > 100:
-            raise AnalysisError("engine B: substitution cycle")
-    return a
+        if not changed:
+            return a
+    raise AnalysisError("engine B: substitution cycle")
+
+
+def memo_get(tag, args, extra=None):
+    """Semantic memo: an entry matches when its arguments equal the requested ones under the
+    *current* substitution (so the same value met twice -- in the code and in a reference
+    formula, before and after further identities were learnt -- is one symbol)."""
+    want = tuple(norm(x).key() for x in args)
+    for t, a, e, r in P.entries:
+        if t == tag and e == extra and len(a) == len(args) and tuple(norm(x).key() for x in a) == want:
+            return r
+    return None
+
+
+def memo_put(tag, args, extra, result):
+    P.entries.append((tag, [Aff.of(x) for x in args], extra, result))
+    return result
 
 
 # ---------------------------------------------------------------- Fourier-Motzkin
@@ -353,6 +357,32 @@ def _set_box(s, lo, hi):
     s.lo, s.hi = lo, hi
 
 
+def _support(form, seen=None):
+    """Symbols a form depends on, looking through monomials and substitutions."""
+    seen = set() if seen is None else seen
+    for s in form.t:
+        if s in seen:
+            continue
+        seen.add(s)
+        if s in P.monos:
+            for f in P.monos[s]:
+                _support(norm(Aff.sym(f)), seen)
+                seen.add(f)
+    return seen
+
+
+def _pick_for_substitution(a):
+    """A plain symbol of `a` that the rest of `a` does not depend on (no cycles); prefers a
+    unit coefficient and the youngest symbol.  None if there is no safe choice."""
+    cands = [s for s in a.t if s not in P.monos]
+    cands.sort(key=lambda s: (abs(a.t[s]) != 1, -s.id))
+    for s in cands:
+        rest = Aff(a.c, {k: w for k, w in a.t.items() if k is not s})
+        if s not in _support(rest):
+            return s
+    return None
+
+
 def assume_eq0(a):
     """Record a == 0, as a substitution when possible (keeps normal forms canonical)."""
     a = norm(a)
@@ -360,13 +390,11 @@ def assume_eq0(a):
         if a.c != 0:
             raise DeadPath()
         return
-    pick = None
-    for s, v in sorted(a.t.items(), key=lambda kv: -kv[0].id):
-        if abs(v) == 1:
-            pick = s
-            break
+    pick = _pick_for_substitution(a)
     if pick is None:
-        pick = max(a.t, key=lambda s: s.id)
+        P.cons.append(a)
+        P.cons.append(-a)
+        return
     v = a.t[pick]
     rest = Aff(a.c, {k: w for k, w in a.t.items() if k is not pick})
     expr = rest.scale(Fr(-1) / v)  # pick = -(rest)/v
@@ -425,100 +453,142 @@ def divmod_const(x, M):
     M = int(M)
     if M <= 0:
         raise AnalysisError("engine B: division by non-positive constant %r" % M)
-    raw = ("divmod", Aff.of(x).key(), M)
-    if raw in P.memo:
-        return P.memo[raw]
     x = norm(x)
     if x.is_const():
         if x.c.denominator != 1:
             raise AnalysisError("engine B: non-integer constant")
         return Aff(int(x.c) // M), Aff(int(x.c) % M)
-    k = _Keys(raw, ("divmod", x.key(), M))
-    if k in P.memo:
-        return P.memo[k]
+    hit = memo_get("divmod", [x], M)
+    if hit is not None:
+        return hit
     # syntactic decomposition x = M*A + B with B in [0, M-1]
     A = Aff(0, {s: v / M for s, v in x.t.items() if v.denominator == 1 and v % M == 0})
-    B = Aff(x.c, {s: v for s, v in x.t.items() if not (v.denominator == 1 and v % M == 0)})
-    blo, bhi = bounds(B)
+    Bf = Aff(x.c, {s: v for s, v in x.t.items() if not (v.denominator == 1 and v % M == 0)})
+    blo, bhi = bounds(Bf)
     if blo is not None and bhi is not None and blo // M == bhi // M:
         kk = int(blo // M)
-        res = (A + kk, B - kk * M)
-        P.memo[k] = res
-        return res
+        return memo_put("divmod", [x], M, (A + kk, Bf - kk * M))
     lo, hi = bounds(x)
     q = Sym("q(%r//%d)" % (x, M), None if lo is None else int(lo // M), None if hi is None else int(hi // M))
     r = Sym("r(%r%%%d)" % (x, M), 0, M - 1)
     qa, ra = Aff.sym(q), Aff.sym(r)
-    # solve x = M*q + r for one of x's symbols (prefer unit coefficient, youngest symbol)
-    pick = None
-    for s, v in sorted(x.t.items(), key=lambda kv: -kv[0].id):
-        if abs(v) == 1:
-            pick = s
-            break
+    res = memo_put("divmod", [x], M, (qa, ra))
+    # solve x = M*q + r for one of x's symbols (unit coefficient, youngest plain symbol, no cycle)
+    pick = _pick_for_substitution(x)
     if pick is None:
-        pick = max(x.t, key=lambda s: s.id)
+        e = qa.scale(M) + ra - x
+        P.cons.append(e)
+        P.cons.append(-e)
+        return res
     v = x.t[pick]
     rest = Aff(x.c, {s: w for s, w in x.t.items() if s is not pick})
     _substitute(pick, (qa.scale(M) + ra - rest).scale(Fr(1) / v))
-    P.memo[k] = (qa, ra)
-    return qa, ra
+    return res
 
 
 def mod_sym(x, m):
     """x % m for a modulus proved positive: fresh r with 0 <= r <= m-1 (Python floor semantics)."""
-    raw = ("mod", Aff.of(x).key(), Aff.of(m).key())
-    if raw in P.memo:
-        return P.memo[raw]
     x, m = norm(x), norm(m)
     if m.is_const():
         return divmod_const(x, int(m.c))[1]
-    lo, _ = bounds(m)
+    lo, mh = bounds(m)
     if lo is None or lo < 1:
         raise AnalysisError("engine B: modulus not provably positive: %r" % m)
-    k = _Keys(raw, ("mod", x.key(), m.key()))
-    if k in P.memo:
-        return P.memo[k]
-    _, mh = bounds(m)
+    hit = memo_get("mod", [x, m])
+    if hit is not None:
+        return hit
     r = fresh("r(%r%%%r)" % (x, m), 0, None if mh is None else int(mh) - 1)
     assume_ge0(m - 1 - r)
-    P.memo[k] = r
-    return r
+    return memo_put("mod", [x, m], None, r)
 
 
 def mul(a, b):
-    raw = ("mul",) + tuple(sorted([Aff.of(a).key(), Aff.of(b).key()]))
-    if raw in P.memo:
-        return P.memo[raw]
-    ra, rb = Aff.of(a), Aff.of(b)
-    a, b = norm(a), norm(b)
-    if a.is_const():
-        return rb.scale(a.c)  # keep the other operand as written: later memo keys depend on it
-    if b.is_const():
-        return ra.scale(b.c)
-    k = _Keys(raw, ("mul",) + tuple(sorted([a.key(), b.key()])))
+    """Product of two forms, expanded into monomials over their normal forms.  The interval
+    product of the two factors is recorded as a fact about the expanded form (the expansion
+    alone forgets that its monomials are correlated)."""
+    na, nb = norm(a), norm(b)
+    out = _mul_forms(na, nb)
+    if not na.is_const() and not nb.is_const():
+        (al, ah), (bl, bh) = bounds(na), bounds(nb)
+        if None not in (al, ah, bl, bh):
+            c = [x * y for x in (al, ah) for y in (bl, bh)]
+            assume_ge0(out - min(c))
+            assume_ge0(Aff(max(c)) - out)
+    return out
+
+
+def _mul_forms(na, nb):
+    if na.is_const():
+        return nb.scale(na.c)
+    if nb.is_const():
+        return na.scale(nb.c)
+    out = Aff(na.c * nb.c)
+    out = out + Aff(0, dict(nb.t)).scale(na.c) + Aff(0, dict(na.t)).scale(nb.c)
+    for s1, v1 in na.t.items():
+        for s2, v2 in nb.t.items():
+            out = out + _mono(s1, s2).scale(v1 * v2)
+    return out
+
+
+def _mono(s1, s2):
+    """A monomial of two symbols: an uninterpreted symbol (memoised, commutative) whose
+    interval is the interval product of its factors at creation."""
+    k = ("mono",) + tuple(sorted((s1.id, s2.id)))
     if k in P.memo:
         return P.memo[k]
-    (al, ah), (bl, bh) = bounds(a), bounds(b)
-    lo = hi = None
+    # register first: computing bounds normalises constraints, which may meet this very monomial
+    ms = Sym("(%s*%s)" % (s1, s2), 0 if s1 is s2 else None, None)
+    P.monos[ms] = (s1, s2)
+    P.memo[k] = Aff.sym(ms)
+    if s1 in P.subst or s2 in P.subst or s1 in P.monos or s2 in P.monos:
+        (al, ah), (bl, bh) = (None, None), (None, None)  # rewritten by norm() anyway / keep it cheap
+    else:
+        (al, ah), (bl, bh) = (s1.lo, s1.hi), (s2.lo, s2.hi)
     if None not in (al, ah, bl, bh):
         c = [x * y for x in (al, ah) for y in (bl, bh)]
-        lo, hi = int(min(c)), int(max(c))
-    r = fresh("(%r*%r)" % (a, b), lo, hi)
-    P.memo[k] = r
-    return r
+        ms.lo, ms.hi = int(min(c)), int(max(c))
+    return P.memo[k]
+
+
+def floordiv_sym(x, m, label="//"):
+    """x // m for a modulus proved positive but not constant: q with x = m*q + (x % m).
+    The product m*q is tied to x - r by a substitution, so `x - m*(x//m)` normalises to x % m."""
+    nm = norm(m)
+    if nm.is_const():
+        return divmod_const(x, int(nm.c))[0]
+    hit = memo_get("floordiv", [x, m])
+    if hit is not None:
+        return hit
+    mlo, mhi = bounds(nm)
+    if mlo is None or mlo < 1:
+        raise AnalysisError("engine B: divisor not provably positive: %r" % nm)
+    nonneg = decide_ge0(x, "%s: dividend>=0" % label)  # fixes the sign of the quotient
+    r = mod_sym(x, m)
+    xlo, xhi = bounds(x)
+    qlo = qhi = None
+    if nonneg:
+        qlo = 0
+        if xhi is not None:
+            qhi = int(xhi // mlo)
+    else:
+        qhi = -1
+        if xlo is not None:
+            qlo = int(xlo // mlo)
+    q = fresh("q(%r//%r)" % (norm(x), nm), qlo, qhi)
+    memo_put("floordiv", [x, m], None, q)
+    prod = mul(nm, q)
+    assume_eq0(prod - (Aff.of(x) - r))
+    return q
 
 
 def uninterp(name, args, lo=None, hi=None):
-    """Uninterpreted integer function of forms, memoised per path by normal form."""
-    raw = ("fn", name) + tuple(Aff.of(a).key() if isinstance(a, (Aff, int)) else a for a in args)
-    if raw in P.memo:
-        return P.memo[raw]
-    k = _Keys(raw, ("fn", name) + tuple(norm(Aff.of(a)).key() if isinstance(a, (Aff, int)) else a for a in args))
-    if k in P.memo:
-        return P.memo[k]
-    r = fresh("%s(%s)" % (name, ", ".join(repr(a) for a in args)), lo, hi)
-    P.memo[k] = r
-    return r
+    """Uninterpreted integer function of forms, memoised per path."""
+    forms = [Aff.of(a) for a in args]
+    hit = memo_get("fn:" + name, forms)
+    if hit is not None:
+        return hit
+    r = fresh("%s(%s)" % (name, ", ".join(repr(norm(a)) for a in forms)), lo, hi)
+    return memo_put("fn:" + name, forms, None, r)
 
 
 def is_pow2(n):
